@@ -727,6 +727,40 @@ fn sweep<'a, 'e, T: IteTable<'a, BddPtr<'a>> + Default>(
             }
         }
     }
+    // lists of literals: every sequence of <= 3 literals (repetitions and complementary pairs
+    // included) and every subset of the 2n literals in label order, through and_lst / or_lst
+    if !s.stop && n <= 4 {
+        let lits: Vec<TT> = (0..n).flat_map(|v| [tt::lit(v, true, n), tt::lit(v, false, n)]).collect();
+        for a in 0..lits.len() {
+            for b2 in 0..lits.len() {
+                s.issue(Op::AndLst(vec![lits[a], lits[b2]]));
+                s.issue(Op::OrLst(vec![lits[a], lits[b2]]));
+                for c in 0..lits.len() {
+                    s.issue(Op::AndLst(vec![lits[a], lits[b2], lits[c]]));
+                    s.issue(Op::OrLst(vec![lits[a], lits[b2], lits[c]]));
+                }
+            }
+        }
+        for mask in 0..(1usize << lits.len()) {
+            if mask.count_ones() >= 4 {
+                let l: Vec<TT> = (0..lits.len()).filter(|i| (mask >> i) & 1 == 1).map(|i| lits[i]).collect();
+                s.issue(Op::AndLst(l.clone()));
+                s.issue(Op::OrLst(l));
+            }
+        }
+        // constants in front, in the middle and at the end of a list
+        let (t, f0) = (tt::mask(n), 0);
+        for &x in lits.iter().take(2) {
+            for c in [t, f0] {
+                s.issue(Op::AndLst(vec![c, x, lits[2]]));
+                s.issue(Op::AndLst(vec![x, c, lits[2]]));
+                s.issue(Op::AndLst(vec![x, lits[2], c]));
+                s.issue(Op::OrLst(vec![c, x, lits[2]]));
+                s.issue(Op::OrLst(vec![x, c, lits[2]]));
+                s.issue(Op::OrLst(vec![x, lits[2], c]));
+            }
+        }
+    }
     // variables added at run time: the order grows, old diagrams keep their meaning
     if !s.stop {
         for round in 0..(6usize.saturating_sub(cfg.n)).min(2) {
